@@ -1193,6 +1193,7 @@ var host struct {
 	Read  func(io.Reader)
 	Write func(io.Writer)
 	Copy  func(io.Reader)
+	Show  func(...interface{})
 
 	// values of every shape crossing the boundary (property C07)
 	Swap      func(ht.Pair) ht.Pair
@@ -1206,6 +1207,8 @@ var host struct {
 	SumMap    func(map[string]int) int
 	SetKey    func(map[string]int, string, int)
 	Var       func(int, ...int) int
+	ScaleAll  func(int, ...int)
+	VarShape  func(...int) int
 	DivMod    func(int, int) (int, int, error)
 	Apply     func(func(int) int, int) int
 	Compose   func(func(int) int, func(int) int) func(int) int
@@ -1227,6 +1230,7 @@ func Bind(h map[string]interface{}) {
 	host.Read = h["Read"].(func(io.Reader))
 	host.Write = h["Write"].(func(io.Writer))
 	host.Copy = h["Copy"].(func(io.Reader))
+	host.Show = h["Show"].(func(...interface{}))
 	host.Swap = h["Swap"].(func(ht.Pair) ht.Pair)
 	host.Scale = h["Scale"].(func(*ht.Pair, int))
 	host.NewPair = h["NewPair"].(func(int, int) *ht.Pair)
@@ -1238,6 +1242,8 @@ func Bind(h map[string]interface{}) {
 	host.SumMap = h["SumMap"].(func(map[string]int) int)
 	host.SetKey = h["SetKey"].(func(map[string]int, string, int))
 	host.Var = h["Var"].(func(int, ...int) int)
+	host.ScaleAll = h["ScaleAll"].(func(int, ...int))
+	host.VarShape = h["VarShape"].(func(...int) int)
 	host.DivMod = h["DivMod"].(func(int, int) (int, int, error))
 	host.Apply = h["Apply"].(func(func(int) int, int) int)
 	host.Compose = h["Compose"].(func(func(int) int, func(int) int) func(int) int)
